@@ -466,6 +466,8 @@ def descr_tables():
                              (8, E.ENUM_SH_TYPE_MIPS, 'mips'), (243, E.ENUM_SH_TYPE_RISCV, 'riscv')):
         ents = [(k, v) for k, v in entries(D._DESCR_SH_TYPE, tab) if v not in (2, 11, 18, 0x6ffffffc, 0x6ffffffd, 0x6ffffffe, 0x6fffffff, 5,
                                                                                 0x6ffffff6, 6, 4, 9, 19, 0x70000003, 0x6ffffff3)]
+        if mach == 62:
+            ents += [('0x6ffffff0', 0x6ffffff0), ('0x7ffffffd', 0x7ffffffd), ('0x7fffffff', 0x7fffffff)]      # named by readelf, not in the enum
         T.append(('sh_type/' + label, '-S', ents, sh_type_builder(mach), secline))
 
     def flag_builder(code):
